@@ -9,6 +9,14 @@
 //!   timeout    : lock expiry with a 1 s lock timeout (conflict demanded only within 0.3 s, release
 //!                demanded only after 10 s; everything in between is a don't-care window).
 //!
+//! About one seq/interleave program in four runs with a tight `max_btree_entries` bound (the number of
+//! ordered-index keys after the initial load plus 0-2), so that inserts and updates legitimately fail
+//! *half-way* with a capacity error (ResultTooLarge from the ordered-index maintenance). A transaction
+//! whose statement failed like that is only ever rolled back afterwards, and the rollback must leave
+//! the table and every index-answered query as if none of its statements had run; a failed
+//! non-transactional statement (the engine rolls its internal transaction back) must leave the table
+//! unchanged at once.
+//!
 //! Oracle for seq/interleave: the harness keeps its own dirty row model with a per-transaction undo log.
 //! After every step, every row that no *active* transaction has touched must be exactly as in the model
 //! (this is independent of the isolation level the engine implements); whenever no transaction is
@@ -26,6 +34,14 @@ use std::time::{Duration, Instant};
 
 const T: &str = "acc";
 const COLS: [&str; 4] = ["k", "v", "s", "f"];
+
+fn cfg_cap(lock_timeout_secs: u64, cap: Option<usize>) -> RelationalConfig {
+    let mut c = cfg(lock_timeout_secs);
+    if let Some(n) = cap {
+        c.max_btree_entries = n;
+    }
+    c
+}
 
 fn cfg(lock_timeout_secs: u64) -> RelationalConfig {
     RelationalConfig {
@@ -100,6 +116,8 @@ struct TxM {
     inserted: BTreeSet<u64>,
     updated: BTreeSet<u64>,
     deleted: BTreeMap<u64, Vec<Value>>,
+    /// a statement of this transaction failed half-way (capacity error): only rollback is judged from here on
+    poisoned: bool,
 }
 
 impl TxM {
@@ -125,6 +143,69 @@ struct Sim<'a> {
     trace: Vec<String>,
     dead: bool,
     verbose: bool,
+    /// what the program was planned with (indexes, initial rows, capacity bound)
+    plan: Plan,
+    /// rows left behind by an insert that failed half-way: id -> which statement
+    ghosts: BTreeMap<u64, String>,
+    capacity_failures: u64,
+}
+
+#[derive(Clone, Debug)]
+struct Plan {
+    pre: bool,
+    hash: Vec<&'static str>,
+    btree: Vec<&'static str>,
+    rows: Vec<Vec<Value>>,
+    /// Some(n): RelationalConfig::max_btree_entries = n
+    cap: Option<usize>,
+}
+
+fn make_plan(rng: &mut Rng) -> Plan {
+    let capacity_mode = rng.chance(1, 4);
+    let pre = rng.bool();
+    let mut hash = Vec::new();
+    let mut btree = Vec::new();
+    for c in ["k", "v", "s", "f", "_id"] {
+        let b = rng.chance(1, 2);
+        // under a capacity bound the interesting columns carry both kinds of index
+        let h = if capacity_mode && b { rng.chance(3, 4) } else { rng.chance(1, 2) };
+        if h {
+            hash.push(c);
+        }
+        if b {
+            btree.push(c);
+        }
+    }
+    if capacity_mode && !btree.iter().any(|c| *c != "_id") {
+        let c = *rng.pick(&["k", "v", "s", "f"]);
+        btree.push(c);
+        if !hash.contains(&c) {
+            hash.push(c);
+        }
+    }
+    let n0 = 3 + rng.below(12);
+    let rows: Vec<Vec<Value>> = (0..n0).map(|_| gen_vals(rng)).collect();
+    let cap = if capacity_mode {
+        // number of ordered-index keys the initial load produces (the engine counts distinct keys over all ordered indexes)
+        let mut keys = 0usize;
+        for c in &btree {
+            if *c == "_id" {
+                keys += rows.len();
+            } else {
+                let ci = COLS.iter().position(|x| x == c).unwrap();
+                let d: BTreeSet<String> = rows.iter().map(|r| format!("{:?}", r[ci])).collect();
+                keys += d.len();
+            }
+        }
+        Some(keys + rng.below(3))
+    } else {
+        None
+    };
+    Plan { pre, hash, btree, rows, cap }
+}
+
+fn is_capacity_error(e: &RelationalError) -> bool {
+    matches!(e, RelationalError::ResultTooLarge { operation, .. } if operation.contains("btree"))
 }
 
 type Snap = BTreeMap<u64, Vec<(String, Value)>>;
@@ -134,7 +215,7 @@ impl<'a> Sim<'a> {
         if self.verbose {
             eprintln!("VIOLATION {} :: {}", sig, detail);
         }
-        let ctx = format!("hash_idx={:?} btree_idx={:?} | program: {}", self.hash_idx, self.btree_idx, self.trace.join("; "));
+        let ctx = format!("hash_idx={:?} btree_idx={:?} max_btree_entries={:?} capacity_failures_so_far={} | program: {}", self.hash_idx, self.btree_idx, self.plan.cap, self.capacity_failures, self.trace.join("; "));
         let rp = json!({"part": self.part, "case_seed": self.seed});
         self.r.violation(sig.to_string(), format!("{} || {}", detail, ctx), rp);
     }
@@ -240,7 +321,11 @@ impl<'a> Sim<'a> {
         match res {
             Err(RelationalError::LockConflict { blocking_tx, row_id, .. }) => {
                 self.r.count("lock_conflicts", 1);
-                if locked.is_empty() && fins.is_empty() && fdel.is_empty() {
+                // a row left behind by another active transaction's failed insert is that transaction's row
+                let ghost_conflict = self.txs.iter().enumerate().any(|(i, t)| Some(i) != me && t.inserted.contains(row_id) && !self.rows.contains_key(row_id));
+                if ghost_conflict {
+                    self.r.count("lock_conflicts_expected", 1);
+                } else if locked.is_empty() && fins.is_empty() && fdel.is_empty() {
                     let fin = self.finished.contains(blocking_tx);
                     let d = format!("{} {:?} got LockConflict(blocking_tx={}, row={}) but no active transaction has touched a matching row (matching {:?}); blocking tx finished earlier: {}", what, cond, blocking_tx, row_id, m_all, fin);
                     self.violation(if fin { "lock:conflict-with-finished-transaction" } else { "lock:conflict-without-holder" }, d);
@@ -253,6 +338,34 @@ impl<'a> Sim<'a> {
                     if !Self::snap_same(b, &a) {
                         self.violation("statement:lock-conflict-but-table-changed", format!("{} {:?} failed with LockConflict yet the table differs before/after", what, cond));
                         self.dead = true;
+                    }
+                }
+                None
+            }
+            Err(e) if self.plan.cap.is_some() && is_capacity_error(e) && what.contains("update") => {
+                // a legitimate failure half-way through the statement (ordered index is full)
+                self.capacity_failures += 1;
+                self.r.count("capacity_failures", 1);
+                self.r.count(if me.is_some() { "capacity_failures:tx_update" } else { "capacity_failures:update" }, 1);
+                self.trace.push("-> capacity error".into());
+                match me {
+                    Some(i) => {
+                        // every matching row was locked before the first one was changed; from now on
+                        // they count as touched and the transaction will only be rolled back
+                        self.txs[i].poisoned = true;
+                        for id in &m_all {
+                            self.txs[i].updated.insert(*id);
+                        }
+                    }
+                    None => {
+                        // the engine has rolled its internal transaction back: nothing may have changed
+                        if let (Some(b), Some(a)) = (before, self.snapshot()) {
+                            if !Self::snap_same(b, &a) {
+                                let diff: Vec<u64> = b.keys().chain(a.keys()).filter(|id| b.get(id).map(|x| format!("{:?}", x)) != a.get(id).map(|x| format!("{:?}", x))).copied().collect();
+                                self.violation("failed-update:table-changed-after-internal-rollback", format!("{} {:?} failed with {:?}; rows {:?} differ before/after", what, cond, e, diff));
+                                self.dead = true;
+                            }
+                        }
                     }
                 }
                 None
@@ -312,12 +425,13 @@ impl<'a> Sim<'a> {
             self.dead = true;
         }
         self.trace.push(format!("t{}=begin", id));
-        self.txs.push(TxM { id, undo: vec![], inserted: BTreeSet::new(), updated: BTreeSet::new(), deleted: BTreeMap::new() });
+        self.txs.push(TxM { id, undo: vec![], inserted: BTreeSet::new(), updated: BTreeSet::new(), deleted: BTreeMap::new(), poisoned: false });
         self.r.count("op:begin", 1);
     }
 
     fn step_insert(&mut self, me: Option<usize>) {
         let vals = gen_vals(&mut self.rng);
+        let before = if self.plan.cap.is_some() { self.snapshot() } else { None };
         let res = match me {
             Some(i) => {
                 self.trace.push(format!("t{}.insert {:?}", self.txs[i].id, vals));
@@ -342,6 +456,39 @@ impl<'a> Sim<'a> {
                     self.txs[i].undo.push(Undo::Ins(id));
                 }
                 self.r.count(if me.is_some() { "op:tx_insert" } else { "op:insert" }, 1);
+            }
+            Err(e) if self.plan.cap.is_some() && is_capacity_error(&e) => {
+                self.capacity_failures += 1;
+                self.r.count("capacity_failures", 1);
+                self.r.count(if me.is_some() { "capacity_failures:tx_insert" } else { "capacity_failures:insert" }, 1);
+                self.trace.push("-> capacity error".into());
+                // rows the failed insert left behind (partial effect)
+                let left: Vec<u64> = match (&before, self.snapshot()) {
+                    (Some(b), Some(a)) => a.keys().filter(|id| !b.contains_key(id)).copied().collect(),
+                    _ => Vec::new(),
+                };
+                for id in &left {
+                    self.max_id = self.max_id.max(*id);
+                }
+                match me {
+                    Some(i) => {
+                        // partial effects of an active transaction are its own business until it is
+                        // rolled back; then they must be gone (checked by check_stable_rows)
+                        self.txs[i].poisoned = true;
+                        let txid = self.txs[i].id;
+                        for id in left {
+                            self.txs[i].inserted.insert(id);
+                            self.ghosts.insert(id, format!("tx_insert of transaction {} that failed with a capacity error", txid));
+                        }
+                    }
+                    None => {
+                        if !left.is_empty() {
+                            let d = format!("insert {:?} failed with {:?} (the engine rolled its internal transaction back) yet rows {:?} now exist", vals, e, left);
+                            self.violation("failed-insert:row-survives-rollback", d);
+                            self.dead = true;
+                        }
+                    }
+                }
             }
             Err(e) => {
                 self.violation(&format!("tx-write:unexpected-error:{}", err_name(&e)), format!("insert of a valid row failed: {:?}", e));
@@ -448,6 +595,11 @@ impl<'a> Sim<'a> {
     }
 
     fn step_end(&mut self, ti: usize, commit: bool) {
+        // after a statement failed half-way the property only speaks about rollback
+        let commit = commit && !self.txs[ti].poisoned;
+        if self.txs[ti].poisoned {
+            self.r.count("rollbacks_after_capacity_failure", 1);
+        }
         let t = self.txs.remove(ti);
         self.trace.push(format!("t{}.{}", t.id, if commit { "commit" } else { "rollback" }));
         let res = if commit { self.e.commit(t.id) } else { self.e.rollback(t.id) };
@@ -551,6 +703,12 @@ impl<'a> Sim<'a> {
         }
         for id in snap.keys() {
             if !self.rows.contains_key(id) && !touched.contains(id) {
+                if let Some(origin) = self.ghosts.get(id).cloned() {
+                    let d = format!("row {} {:?} was left behind by the {} and is still there after that transaction was rolled back", id, snap[id], origin);
+                    self.violation("failed-insert:row-survives-rollback", d);
+                    self.dead = true;
+                    return;
+                }
                 let d = format!("row {} {:?} exists although it was never committed / was deleted or rolled back", id, snap[id]);
                 self.violation("state:row-should-not-exist", d);
                 self.dead = true;
@@ -640,23 +798,30 @@ impl<'a> Sim<'a> {
             self.r.inconclusive("create_table failed");
             return;
         }
-        let pre = self.rng.bool();
-        let ddl = |s: &mut Self| {
-            for c in ["k", "v", "s", "f", "_id"] {
-                if s.rng.chance(1, 2) && s.e.create_index(T, c).is_ok() {
+        let pre = self.plan.pre;
+        let ddl = |s: &mut Self| -> bool {
+            for c in s.plan.hash.clone() {
+                if s.e.create_index(T, c).is_ok() {
                     s.hash_idx.push(c.to_string());
                 }
-                if s.rng.chance(1, 2) && s.e.create_btree_index(T, c).is_ok() {
-                    s.btree_idx.push(c.to_string());
+            }
+            for c in s.plan.btree.clone() {
+                match s.e.create_btree_index(T, c) {
+                    Ok(()) => s.btree_idx.push(c.to_string()),
+                    // the bound was planned to hold the initial load; a failure here would leave a
+                    // half-built index, which is not this property's subject
+                    Err(_) if s.plan.cap.is_some() => return false,
+                    Err(_) => {}
                 }
             }
+            true
         };
-        if pre {
-            ddl(self);
+        if pre && !ddl(self) {
+            self.r.inconclusive("capacity plan: create_btree_index failed");
+            return;
         }
-        let n0 = 3 + self.rng.below(12);
-        for _ in 0..n0 {
-            let vals = gen_vals(&mut self.rng);
+        let n0 = self.plan.rows.len();
+        for vals in self.plan.rows.clone() {
             match self.e.insert(T, to_map(&vals)) {
                 Ok(id) => {
                     self.max_id = self.max_id.max(id);
@@ -668,8 +833,12 @@ impl<'a> Sim<'a> {
                 }
             }
         }
-        if !pre {
-            ddl(self);
+        if !pre && !ddl(self) {
+            self.r.inconclusive("capacity plan: create_btree_index failed");
+            return;
+        }
+        if self.plan.cap.is_some() {
+            self.r.count("capacity_programs_started", 1);
         }
         self.trace.push(format!("load {} rows", n0));
         self.check_stable_rows();
@@ -707,7 +876,8 @@ impl<'a> Sim<'a> {
             } else {
                 let ti = self.rng.below(n_active);
                 tx_statements += 1;
-                match self.rng.weighted(&[22, 30, 14, 10, 12, 12]) {
+                let choice = if self.txs[ti].poisoned { 5 } else { self.rng.weighted(&[22, 30, 14, 10, 12, 12]) };
+                match choice {
                     0 => self.step_insert(Some(ti)),
                     1 => self.step_update(Some(ti)),
                     2 => self.step_delete(Some(ti)),
@@ -746,12 +916,16 @@ impl<'a> Sim<'a> {
 fn run_program(part: &'static str, case_seed: u64, r: &mut Report, verbose: bool) {
     let mut rng = Rng::new(case_seed);
     let max_tx = if part == "seq" { 1 } else { 2 + rng.below(3) };
+    let plan = make_plan(&mut rng);
     let mut s = Sim {
         rng,
         seed: case_seed,
         part,
         r,
-        e: RelationalEngine::with_config(cfg(10_000_000)),
+        e: RelationalEngine::with_config(cfg_cap(10_000_000, plan.cap)),
+        plan,
+        ghosts: BTreeMap::new(),
+        capacity_failures: 0,
         rows: BTreeMap::new(),
         max_id: 0,
         txs: Vec::new(),
@@ -1073,6 +1247,67 @@ fn run_timeout(case_seed: u64, r: &mut Report) {
 }
 
 
+/// Locks expire one by one, not per transaction: t1 writes row A, later row B; once A's lock is
+/// older than the timeout (and B's is not) t2 legitimately takes A over - B must still be t1's.
+fn run_timeout_partial(case_seed: u64, r: &mut Report) {
+    let replay = json!({"part": "timeout-partial", "case_seed": case_seed});
+    let e = RelationalEngine::with_config(cfg(1));
+    if e.create_table(T, schema()).is_err()
+        || e.insert(T, to_map(&[Value::Int(1), Value::Int(0), Value::Null, Value::Float(0.0)])).is_err()
+        || e.insert(T, to_map(&[Value::Int(2), Value::Int(0), Value::Null, Value::Float(0.0)])).is_err()
+    {
+        r.inconclusive("timeout-partial: setup failed");
+        return;
+    }
+    let ups = |v: i64| -> HashMap<String, Value> { [("v".to_string(), Value::Int(v))].into_iter().collect() };
+    let row = |k: i64| Condition::Eq("k".into(), Value::Int(k));
+    let t1 = e.begin_transaction();
+    let t2 = e.begin_transaction();
+    let t3 = e.begin_transaction();
+    let a_locked = Instant::now();
+    if !matches!(e.tx_update(t1, T, row(1), ups(1)), Ok(1)) {
+        r.inconclusive("timeout-partial: first update failed");
+        return;
+    }
+    std::thread::sleep(Duration::from_millis(650 + (case_seed % 100)));
+    let b_locked = Instant::now();
+    if !matches!(e.tx_update(t1, T, row(2), ups(1)), Ok(1)) {
+        r.inconclusive("timeout-partial: second update failed");
+        return;
+    }
+    // past A's expiry (1 s), well inside B's
+    std::thread::sleep(Duration::from_millis(1_150).saturating_sub(a_locked.elapsed()));
+    let took = e.tx_update(t2, T, row(1), ups(2));
+    if !matches!(took, Ok(1)) {
+        r.count("timeout_partial_takeover_refused", 1);
+    }
+    let res3 = if case_seed & 1 == 0 { e.tx_update(t3, T, row(2), ups(3)) } else { e.tx_delete(t3, T, row(2)) };
+    let b_age = b_locked.elapsed();
+    if b_age < Duration::from_millis(850) {
+        match res3 {
+            Err(RelationalError::LockConflict { .. }) => r.count("timeout_partial_other_lock_survives_takeover", 1),
+            other => {
+                r.violation(
+                    "exclusion:unexpired-lock-of-active-tx-lost-when-its-other-expired-lock-is-taken-over",
+                    format!(
+                        "lock timeout 1 s; t1 wrote row A, {} ms later row B; after A's lock expired t2 wrote A ({:?}); {} ms after t1 wrote B (t1 still active) a third transaction's write on B got {:?}",
+                        b_locked.duration_since(a_locked).as_millis(), took, b_age.as_millis(), other
+                    ),
+                    replay,
+                );
+                return;
+            }
+        }
+    } else {
+        r.inconclusive("timeout-partial: machine too slow for the window (don't care)");
+    }
+    let _ = e.rollback(t3);
+    let _ = e.rollback(t2);
+    let _ = e.rollback(t1);
+    r.eval(hash_combine(case_seed, 0x72), true);
+    r.count("programs:timeout-partial", 1);
+}
+
 /// minimal witness of the known defect (`--probe 1`)
 fn probe() {
     let e = RelationalEngine::with_config(cfg(10_000_000));
@@ -1088,6 +1323,24 @@ fn probe() {
     println!("t2 rollback -> {:?}", e.rollback(t2));
     let ids = |c: Condition| e.select(T, c).map(|r| r.iter().map(|x| x.id).collect::<Vec<_>>());
     println!("after both rolled back: select(True) {:?}, via hash index Eq(k,1) {:?}, via ordered index Ge(v,0) {:?}", ids(Condition::True), ids(Condition::Eq("k".into(), Value::Int(1))), ids(Condition::Ge("v".into(), Value::Int(0))));
+
+    // statements that fail half-way because the ordered index is full (max_btree_entries)
+    let row = |v: i64| to_map(&[Value::Int(0), Value::Int(v), Value::Null, Value::Float(0.0)]);
+    let e = RelationalEngine::with_config(cfg_cap(10_000_000, Some(1)));
+    e.create_table(T, schema()).unwrap();
+    e.create_btree_index(T, "v").unwrap();
+    let ids = |e: &RelationalEngine, c: Condition| e.select(T, c).map(|r| r.iter().map(|x| x.id).collect::<Vec<_>>());
+    println!("A max_btree_entries=1, ordered index on v: insert v=1 -> {:?}; insert v=2 -> {:?}; select(True) {:?}", e.insert(T, row(1)), e.insert(T, row(2)).map_err(|x| err_name(&x)), ids(&e, Condition::True));
+    let e = RelationalEngine::with_config(cfg_cap(10_000_000, Some(2)));
+    e.create_table(T, schema()).unwrap();
+    e.create_btree_index(T, "v").unwrap();
+    e.insert(T, row(1)).unwrap();
+    e.insert(T, row(2)).unwrap();
+    let t = e.begin_transaction();
+    let del = e.tx_delete(t, T, Condition::Eq("_id".into(), Value::Int(1)));
+    let ins = e.insert(T, row(3));
+    println!("B max_btree_entries=2, rows v=1,v=2: t.delete(_id=1) -> {:?}; insert v=3 -> {:?}; t.rollback -> {:?}", del, ins, e.rollback(t).map_err(|x| err_name(&x)));
+    println!("  select(True) {:?}, via ordered index Ge(v,0) {:?}", ids(&e, Condition::True), ids(&e, Condition::Ge("v".into(), Value::Int(0))));
 }
 
 fn main() {
@@ -1109,6 +1362,7 @@ fn main() {
         "interleave" => run_program("interleave", seed, r, verbose),
         "threads" => run_threads(seed, r),
         "timeout" => run_timeout(seed, r),
+        "timeout-partial" => run_timeout_partial(seed, r),
         other => r.inconclusive(&format!("unknown part {}", other)),
     };
 
@@ -1147,6 +1401,9 @@ fn main() {
                         let hs: Vec<_> = (0..n).map(|i| s2.spawn(move || {
                             let mut rr = Report::new();
                             run_timeout(case_seed(seed ^ 0x77, i as u64), &mut rr);
+                            for j in 0..4u64 {
+                                run_timeout_partial(case_seed(seed ^ 0x78, i as u64 * 4 + j), &mut rr);
+                            }
                             rr
                         })).collect();
                         for h in hs {
@@ -1193,23 +1450,24 @@ fn main() {
             floors.extend([("programs:interleave", 300u64), ("lock_conflicts_expected", 200)]);
         }
         if want("seq") || want("interleave") {
-            floors.extend([("op:rollback", 500u64), ("op:commit", 500), ("rolled_back_writes", 1_000), ("quiescent_checks", 1_000), ("battery_queries", 20_000), ("finished_tx_rejections", 100), ("lock_holder_checks", 500)]);
+            floors.extend([("op:rollback", 500u64), ("op:commit", 500), ("rolled_back_writes", 1_000), ("quiescent_checks", 1_000), ("battery_queries", 20_000), ("finished_tx_rejections", 100), ("lock_holder_checks", 500), ("capacity_failures", 150), ("capacity_failures:tx_update", 30), ("rollbacks_after_capacity_failure", 50)]);
         }
         if want("threads") {
             floors.extend([("programs:threads", 20u64), ("threads_lock_conflicts", 50), ("threads_writes", 2_000)]);
         }
         if want("timeout") {
-            floors.extend([("timeout_release_seen", 1u64)]);
+            floors.extend([("timeout_release_seen", 1u64), ("timeout_partial_other_lock_survives_takeover", 2)]);
         }
     }
     let meta = Meta {
         property: "C09",
-        rule: "one evaluation = one executed program (seq: one transaction at a time; interleave: 2-4 transactions in a random single-threaded interleaving; threads: 2-8 real threads; timeout: lock expiry) that passed every per-step check; distinct by hash of the executed statement trace; non-trivial when it contains >=3 transactional statements and at least one finished transaction (threads: at least one lock conflict occurred)",
+        rule: "one evaluation = one executed program (seq: one transaction at a time; interleave: 2-4 transactions in a random single-threaded interleaving; threads: 2-8 real threads; timeout: lock expiry, take-over of an expired lock while the old holder ends, and take-over of ONE expired lock of a transaction whose other lock is still fresh) that passed every per-step check; distinct by hash of the executed statement trace; non-trivial when it contains >=3 transactional statements and at least one finished transaction (threads: at least one lock conflict occurred)",
         assumptions: vec![
             "per-step state checks only judge rows no active transaction has touched, so they hold under any isolation level; whole-table, index-battery and lock-table checks run whenever no transaction is active".into(),
             "a write whose condition matches a row *updated* by another active transaction must fail with LockConflict; for rows *inserted* or *deleted* by another active transaction either LockConflict or 'row not visible' is accepted, but actually modifying such a row is a violation".into(),
+            "one program in four runs with max_btree_entries = (ordered-index keys after the initial load) + 0..2, so inserts/updates legitimately fail half-way with ResultTooLarge; a transaction that saw such a failure is only ever rolled back (the statement says nothing about committing after a failed statement) and its rows count as touched until then; a failed non-transactional insert/update (internal transaction rolled back by the engine) must leave the table unchanged immediately; index answers are compared at the next point where no transaction is active".into(),
             "value pools avoid -0.0 and omitted nullable columns (known C04 index defects) so that index answers can be compared with Condition::evaluate".into(),
-            "lock/transaction timeouts are ~115 days except in the timeout part (1 s; conflict demanded only within 0.3 s, release demanded only after 10 s)".into(),
+            "lock/transaction timeouts are ~115 days except in the timeout part (1 s; conflict demanded only within 0.3 s - 0.85 s for the partial-expiry scenario -, release demanded only after 10 s)".into(),
             "threads: ticks taken right after a successful tx_update lie inside that writer's lock interval; the final value of a row must be the token of the committed write with the largest tick".into(),
         ],
         floors,
